@@ -300,7 +300,10 @@ def bilin_inv(
 
         H = (Fs - f) ** 2 + (Gs - g) ** 2
         # print t, H
-        if np.all(H < tol):
+        # A target is left alone once it has converged: its result must not
+        # depend on the other targets of the same call
+        done = H < tol
+        if np.all(done):
             break
 
         # Estimate Jacobi matrix
@@ -314,8 +317,8 @@ def bilin_inv(
         # incr = - np.dot(Jinv, [Fs-f, Gs-g])
         # x = x + incr[0], y = y + incr[1]
         det = Fx * Gy - Fy * Gx
-        x -= (Gy * (Fs - f) - Fy * (Gs - g)) / det
-        y -= (-Gx * (Fs - f) + Fx * (Gs - g)) / det
+        x = np.where(done, x, x - (Gy * (Fs - f) - Fy * (Gs - g)) / det)
+        y = np.where(done, y, y - (-Gx * (Fs - f) + Fx * (Gs - g)) / det)
 
     return x, y
 
